@@ -18,6 +18,7 @@ import Verif.Lemmas.StateCacheDrop
 import Verif.Lemmas.StateCacheDistinct
 import Verif.Lemmas.StateCacheLink
 import Verif.Lemmas.StateCachePublish
+import Verif.Lemmas.StateCacheRecommit
 namespace Verif.Props.C06
 open Verif.SC
 
@@ -51,6 +52,36 @@ theorem memo_sound (capK maxDepth : Nat) (ops : List (Op H K B V))
       subst hxy
       exact ⟨by rw [hp], hw⟩
   · cases h
+
+/-- `memo_stable`: an entry of the state cache — a block's own write or a memoised answer — never changes and never
+    disappears while no LRU evicts: if after a history `pre` the cache holds `e` for `(k, b)`, then after any continuation
+    `post` it still holds exactly `e`, and `e` is still the chain answer of the (grown) tree. A memoised positive answer can
+    never become wrong later, because the entries of committed blocks never change. -/
+theorem memo_stable (capK maxDepth : Nat) (pre post : List (Op H K B V))
+    (hne : NoEviction (Sys.new capK maxDepth) (pre ++ post)) (k : K) (b : B) (e : Entry V)
+    (he : entryAt ((Sys.new capK maxDepth : Sys H K B V).run pre).1.sc k b = some e) :
+    entryAt ((Sys.new capK maxDepth : Sys H K B V).run (pre ++ post)).1.sc k b = some e ∧
+    Chain ((Sys.new capK maxDepth : Sys H K B V).treeRun [] (pre ++ post)) k b e := by
+  have hev : ((Sys.new capK maxDepth : Sys H K B V).run (pre ++ post)).1.sc.evictions
+      = (Sys.new capK maxDepth : Sys H K B V).sc.evictions := hne
+  rw [Sys.run_append] at hev
+  have h1 : ((Sys.new capK maxDepth : Sys H K B V).run pre).1.sc.evictions = (Sys.new capK maxDepth : Sys H K B V).sc.evictions :=
+    Nat.le_antisymm (by rw [← hev]; exact Sys.run_ev_le _ _) (Sys.run_ev_le _ _)
+  have hS1 := Sys.run_inv (Sys.new capK maxDepth : Sys H K B V) pre (SysInv.init capK maxDepth) h1
+  have hne2 : NoEviction ((Sys.new capK maxDepth : Sys H K B V).run pre).1 post := by unfold NoEviction; rw [hev, h1]
+  have hS2 := Sys.run_inv _ post hS1 hne2
+  have hkeep := Sys.run_keep _ post hS1 hne2 k b (by rw [he]; simp)
+  have hc1 : Chain ((Sys.new capK maxDepth : Sys H K B V).treeRun [] pre) k b e := hS1.inv.sound k b e he
+  have hc2 : Chain ((Sys.new capK maxDepth : Sys H K B V).treeRun [] (pre ++ post)) k b e := by
+    rw [Sys.treeRun_append]; exact Chain.mono (Sys.treeRun_le _ _ post) hc1
+  refine ⟨?_, hc2⟩
+  rw [Sys.run_append]
+  cases h2 : entryAt (((Sys.new capK maxDepth : Sys H K B V).run pre).1.run post).1.sc k b with
+  | none => exact absurd h2 hkeep
+  | some e' =>
+    have hc3 := hS2.inv.sound k b e' h2
+    rw [← Sys.treeRun_append] at hc3
+    rw [Chain.det hc3 hc2]
 
 /-- `C06_partial`: without eviction, every hit at every layer (transaction, block, query, state) equals the value most
     recently written on the context's chain — own pending writes first, then the chain of the block the context sits on
